@@ -1,0 +1,108 @@
+//! Verification hook (compiled only with `--cfg graphrs_verif`): a read-only copy of the private
+//! indexes of a `Graph`, as plain ordered data. It adds no behaviour and is absent from normal builds.
+use super::Graph;
+use std::fmt::Display;
+use std::hash::Hash;
+
+/// Plain-data copy of every private index of a [Graph](../struct.Graph.html).
+#[derive(Clone, Debug)]
+pub struct VerifSnapshot<T> {
+    /// node names in `nodes_vec` order
+    pub nodes_vec: Vec<T>,
+    /// `nodes_map`: name -> position, sorted by name
+    pub nodes_map: Vec<(T, usize)>,
+    /// `nodes_map_rev`: position -> name, sorted by position
+    pub nodes_map_rev: Vec<(usize, T)>,
+    /// `edges`: (name, name) key -> stored edges as (u, v, weight), sorted by key
+    pub edges: Vec<((T, T), Vec<(T, T, f64)>)>,
+    /// `edges_map`: (position, position) key -> stored edges as (u, v, weight), sorted by key
+    pub edges_map: Vec<((usize, usize), Vec<(T, T, f64)>)>,
+    pub successors: Vec<(T, Vec<T>)>,
+    pub successors_map: Vec<(usize, Vec<usize>)>,
+    /// `successors_vec`: per position, (neighbour position, weight) in stored order
+    pub successors_vec: Vec<Vec<(usize, f64)>>,
+    pub predecessors: Vec<(T, Vec<T>)>,
+    pub predecessors_map: Vec<(usize, Vec<usize>)>,
+    pub predecessors_vec: Vec<Vec<(usize, f64)>>,
+}
+
+impl<T, A> Graph<T, A>
+where
+    T: Eq + Clone + PartialOrd + Ord + Hash + Send + Sync + Display,
+    A: Clone,
+{
+    /// Copies the private indexes into plain ordered data (verification builds only).
+    pub fn verif_snapshot(&self) -> VerifSnapshot<T> {
+        let mut nodes_map: Vec<(T, usize)> = self.nodes_map.iter().map(|(k, v)| (k.clone(), *v)).collect();
+        nodes_map.sort();
+        let mut nodes_map_rev: Vec<(usize, T)> =
+            self.nodes_map_rev.iter().map(|(k, v)| (*k, v.name.clone())).collect();
+        nodes_map_rev.sort();
+        let mut edges: Vec<((T, T), Vec<(T, T, f64)>)> = self
+            .edges
+            .iter()
+            .map(|(k, v)| {
+                (
+                    k.clone(),
+                    v.iter().map(|e| (e.u.clone(), e.v.clone(), e.weight)).collect(),
+                )
+            })
+            .collect();
+        edges.sort_by(|a, b| a.0.cmp(&b.0));
+        let mut edges_map: Vec<((usize, usize), Vec<(T, T, f64)>)> = self
+            .edges_map
+            .iter()
+            .flat_map(|(u, hm)| {
+                hm.iter().map(move |(v, es)| {
+                    (
+                        (*u, *v),
+                        es.iter().map(|e| (e.u.clone(), e.v.clone(), e.weight)).collect(),
+                    )
+                })
+            })
+            .collect();
+        edges_map.sort_by(|a, b| a.0.cmp(&b.0));
+        let by_name = |m: &std::collections::HashMap<T, std::collections::HashSet<T>>| {
+            let mut v: Vec<(T, Vec<T>)> = m
+                .iter()
+                .map(|(k, hs)| {
+                    let mut l: Vec<T> = hs.iter().cloned().collect();
+                    l.sort();
+                    (k.clone(), l)
+                })
+                .collect();
+            v.sort();
+            v
+        };
+        let by_index = |m: &nohash::IntMap<usize, nohash::IntSet<usize>>| {
+            let mut v: Vec<(usize, Vec<usize>)> = m
+                .iter()
+                .map(|(k, hs)| {
+                    let mut l: Vec<usize> = hs.iter().copied().collect();
+                    l.sort();
+                    (*k, l)
+                })
+                .collect();
+            v.sort();
+            v
+        };
+        let adj = |v: &Vec<Vec<crate::AdjacentNode>>| -> Vec<Vec<(usize, f64)>> {
+            v.iter()
+                .map(|l| l.iter().map(|a| (a.node_index, a.weight)).collect())
+                .collect()
+        };
+        VerifSnapshot {
+            nodes_vec: self.nodes_vec.iter().map(|n| n.name.clone()).collect(),
+            nodes_map,
+            nodes_map_rev,
+            edges,
+            edges_map,
+            successors: by_name(&self.successors),
+            successors_map: by_index(&self.successors_map),
+            successors_vec: adj(&self.successors_vec),
+            predecessors: by_name(&self.predecessors),
+            predecessors_map: by_index(&self.predecessors_map),
+            predecessors_vec: adj(&self.predecessors_vec),
+        }
+    }
+}
